@@ -9,7 +9,7 @@
    and output are arbitrary functions of the user-visible state ONLY (that is the hypothesis
    that the program does not mention __COVER).  Outcome [OFuel] = the fuel ran out. *)
 From Verif Require Import Lib.Base Model.Cover Proofs.CoverBase Proofs.CoverStruct Proofs.CoverSim
-  Proofs.CoverMain Proofs.CoverWf.
+  Proofs.CoverMain Proofs.CoverWf Proofs.CoverOwn.
 
 (* ---- transparency ------------------------------------------------------------------- *)
 (* For every interpreter (all primitives arbitrary), every program without counter statements
@@ -126,6 +126,21 @@ Theorem C18_partition_sum : forall (E : Type) files mode (P : program E),
 Proof. intros E files mode P H. exact (ao_sum _ _ _ _ _ (annotate_ok files mode P H)). Qed.
 Print Assumptions C18_partition_sum.
 
+(* Every statement is counted in exactly one block.  In the annotated tree a statement of a list
+   is OWNED by the closest counter statement before it in the same list ([owned_prog] lists every
+   statement of every statement list with its owner and start position).  Every statement has
+   an owner, which is an index of the block table; numStmts of block j is the number of
+   statements owned by counter j; and the statements listed are exactly those of P, in order. *)
+Theorem C18_partition : forall (E : Type) files mode (P : program E),
+  nocov_prog P = true ->
+  let A := fst (annotate files mode P) in
+  let B := snd (annotate files mode P) in
+  (forall o p, In (o, p) (owned_prog A) -> exists j, o = Some j /\ 1 <= j <= zlen B)
+  /\ (forall j b, 1 <= j -> nth_error B (Z.to_nat (j - 1)) = Some b -> b_num b = cnt j (owned_prog A))
+  /\ map snd (owned_prog A) = map snd (tagged_prog P).
+Proof. exact (@partition). Qed.
+Print Assumptions C18_partition.
+
 (* ---- blocks are well formed ---------------------------------------------------------- *)
 (* Given the parser's positions are ordered (pos_ok_prog: a statement starts before its end
    position, the statements of a list start in source order -- C03's subject), every tracked
@@ -186,6 +201,11 @@ Example C18_ex_annotate :
    [mkblock [97] (mkpos 1 25) (mkpos 1 31) 1; mkblock [97] (mkpos 1 9) (mkpos 1 23) 2;
     mkblock [97] (mkpos 1 35) (mkpos 1 39) 1; mkblock [97] (mkpos 2 3) (mkpos 2 8) 1;
     mkblock [97] (mkpos 4 16) (mkpos 4 23) 1]).
+Proof. vm_compute. reflexivity. Qed.
+Example C18_ex_owned :
+  owned_prog (fst (annotate [([97], 4)] MCount ex_prog)) =
+  [(Some 2, mkpos 1 9); (Some 2, mkpos 1 16); (Some 1, mkpos 1 25); (Some 3, mkpos 1 35);
+   (Some 4, mkpos 2 3); (Some 5, mkpos 4 16)].
 Proof. vm_compute. reflexivity. Qed.
 Example C18_ex_profile :
   write_profile MCount false false [] (fun p => 47 :: p) (snd (annotate [([97], 4)] MCount ex_prog)) [(2, 1); (1, 1); (3, 1)]
